@@ -76,7 +76,7 @@ type Stmt struct {
 	Body      uint32
 	Needs     []string
 	Ops       []AlterOp
-	OnCluster bool // informational; the single-catalogue model does not use it
+	OnCluster bool // the text carries ON CLUSTER (the cluster model's CStmt.oc)
 }
 
 // Canon renders a statement in the form the model driver prints (`c18prog`).
@@ -717,17 +717,47 @@ type Mode struct {
 	Name       string
 	Cluster    string // clusterName ("" = none)
 	Replicated bool   // CLUST_MODE_CLOUD
+	Ctor       string // constructor of Qryn.Ctrl.Migrate.Mode
 }
 
-var Modes = []Mode{{"single", "", false}, {"replicated", "", true}, {"clustered", ClusterName, false}}
+// The four combinations upgradeDB can compute: mode = SINGLE|CLOUD, |DISTRIBUTED when a cluster name is configured.
+var Modes = []Mode{{"single", "", false, "single"}, {"replicated", "", true, "replicated"},
+	{"clustered", ClusterName, false, "clustered"}, {"clustered_replicated", ClusterName, true, "clusteredReplicated"}}
 
-// EnvFor replicates the template environment updateScripts builds for ttlDays = 30, no storage policy,
-// default samples ordering, skipUnavailableShards = false (the translator checks the key set against the source).
-func EnvFor(m Mode) map[string]string {
+// Params: every value updateScripts can be called with that enters the template environment.
+type Params struct {
+	DB       string // dbname
+	TTLDays  int    // ttlDays (0 keeps the literal "30")
+	Policy   string // storagePolicy ("" = no CREATE_SETTINGS)
+	Ordering string // advancedSamplesOrdering ("" = "timestamp_ns")
+	SkipUnav bool   // skipUnavailableShards
+}
+
+// DefaultParams: the instance the translator numbers the object texts with.
+var DefaultParams = Params{DB: DBName, TTLDays: 30}
+
+// EnvFor replicates the template environment updateScripts builds for the default parameters.
+func EnvFor(m Mode) map[string]string { return EnvForParams(m, DefaultParams) }
+
+// EnvForParams replicates the template environment updateScripts builds (the translator checks the key set and the
+// conditions against the source).
+func EnvForParams(m Mode, p Params) map[string]string {
 	env := map[string]string{
-		"DB": DBName, "CLUSTER": m.Cluster, "OnCluster": " ", "DefaultTtlDays": "30", "CREATE_SETTINGS": "",
+		"DB": p.DB, "CLUSTER": m.Cluster, "OnCluster": " ", "DefaultTtlDays": "30", "CREATE_SETTINGS": "",
 		"SAMPLES_ORDER_RUL": "timestamp_ns", "DIST_CREATE_SETTINGS": "",
 		"ReplacingMergeTree": "ReplacingMergeTree", "MergeTree": "MergeTree", "AggregatingMergeTree": "AggregatingMergeTree",
+	}
+	if p.Policy != "" {
+		env["CREATE_SETTINGS"] = fmt.Sprintf("SETTINGS storage_policy = '%s'", p.Policy)
+	}
+	if p.Ordering != "" {
+		env["SAMPLES_ORDER_RUL"] = p.Ordering
+	}
+	if p.SkipUnav {
+		env["DIST_CREATE_SETTINGS"] += " SETTINGS skip_unavailable_shards = 1"
+	}
+	if p.TTLDays != 0 {
+		env["DefaultTtlDays"] = fmt.Sprintf("%d", p.TTLDays)
 	}
 	if m.Cluster != "" {
 		env["OnCluster"] = "ON CLUSTER `" + m.Cluster + "`"
@@ -738,6 +768,17 @@ func EnvFor(m Mode) map[string]string {
 		env["AggregatingMergeTree"] = "ReplicatedAggregatingMergeTree"
 	}
 	return env
+}
+
+// Shape renders everything of a statement but the identity of its text (what the parameters may not change).
+func (s Stmt) Shape() string {
+	t := s
+	t.Body = 0
+	oc := "0"
+	if s.OnCluster {
+		oc = "1"
+	}
+	return t.Canon() + "@oc" + oc
 }
 
 func Render(q string, env map[string]string) (string, error) {
